@@ -305,7 +305,15 @@ func (g *c13Gen) drawTree() (*c13TreeObj, *remoteexecution.Digest, *remoteexecut
 	data := c13Encode(items, overlong)
 	if g.o.TreeMalformed && t.Chance(1, 2) {
 		g.b.cs.fault("tree-malformed")
-		switch t.Choose(8) {
+		switch t.Choose(9) {
+		case 8:
+			// a bytes field whose number lies beyond the protobuf maximum of
+			// 2^29-1 but below 2^31 (which the wire-level tag parser tolerates
+			// for MessageSet): no protobuf implementation can read this Tree
+			num := uint64(protowire.MaxValidNumber) + 1 + uint64(t.Choose(1<<20))
+			data = protowire.AppendVarint(data, num<<3|uint64(protowire.BytesType))
+			data = protowire.AppendBytes(data, t.Bytes(t.Choose(4)))
+			desc += "+field-number-out-of-range"
 		case 0:
 			// a varint field: valid protobuf, but not a bytes field
 			data = append(data, protowire.AppendVarint(protowire.AppendTag(nil, 3, protowire.VarintType), 7)...)
